@@ -871,13 +871,15 @@ def histories(draw, groups=("core", "maint", "branch"), max_steps=40, names=BVVA
     return out
 
 
-def shrink_history(frontend, history, fp, deadline, reuse=False, approx=False, run=None):
+def shrink_history(frontend, history, fp, deadline, reuse=False, approx=False, run=None, is_known=None):
+    """ddmin over the steps; a candidate is kept only if it still fails with the same fingerprint *and* that failure is
+    not an instance of an open known finding (otherwise the shrinker would slide from a new defect into a listed one)."""
     from . import shrink as shrinker
 
     def still(h):
         r = (run or (lambda hh: Machine(frontend, reuse=reuse, approx=approx).run(hh)))(h)
         for f, o in r.fails:
-            if f == fp:
+            if f == fp and not (is_known is not None and is_known(h, f, o)):
                 return o
         return None
 
